@@ -1,11 +1,12 @@
 (* Line protocol for the extracted C12 model (Model/ChanFlow.v).
 
-   params:  HW SB LOOK RESIDUE PROGS     PROGS = prog/prog/...  prog = n.n.n:c  ("-" = no sizes; c = 0|1), "_" = no programs
+   params:  HW SB LOOK RESIDUE FIX PROGS     FIX = three 0/1 digits (fx_notify_le fx_drain fx_recheck; 111 = the code as it is)
+            PROGS = prog/prog/...  prog = n.n.n:c  ("-" = no sizes; c = 0|1), "_" = no programs
 
-   run HW SB LOOK RESIDUE PROGS TOK,TOK,...
+   run HW SB LOOK RESIDUE FIX PROGS TOK,TOK,...
         execute the choices from [init]; answer: one field per token separated by '|':
         "X" (not enabled) or "<kind>;<state>"
-   follow GRAN HW SB LOOK RESIDUE PROGS EV,EV,...
+   follow GRAN HW SB LOOK RESIDUE FIX PROGS EV,EV,...
         GRAN = locks | attrs.  Follow a trace of real labelled operations
         EV = thr:kind:arg:res   thr = i (I/O) | w (producer) | t (tail) | e (environment)
         kind = name of a model kind (below); arg = k<n>|b|g|e for a send, s|r|g|a for env, "-" otherwise;
@@ -14,7 +15,7 @@
         the labelled operation of the same thread; at "attrs" they must match one by one,
         except that a read the model fuses into a locked step is ignored.
         answer: one field per event: "ok;<state>" | "ign;<state>" | "MISMATCH;<model kind>;<state>" (then "-" for the rest)
-   explore HW SB LOOK RESIDUE PROGS MAXSTATES MAXARR
+   explore HW SB LOOK RESIDUE FIX PROGS MAXSTATES MAXARR
         breadth-first search of the model (send outcomes: 1, all, block, gone, err; residue 0 / all; at most
         MAXARR arrivals); answer "states=N truncated=0|1 bound_bad=.. release_bad=.. parked_disc=.. [wb=TOKS] [wr=TOKS] [wd=TOKS]"
 
@@ -38,7 +39,7 @@ let io_s = function
   | IoRecv w -> "Recv." ^ b01 w
   | IoRcvAcq w -> "RcvAcq." ^ b01 w | IoRcvWc w -> "RcvWc." ^ b01 w | IoRcvCwf w -> "RcvCwf." ^ b01 w
   | IoRcvApp w -> "RcvApp." ^ b01 w | IoRcvRel w -> "RcvRel." ^ b01 w
-  | IoHw1 -> "Hw1" | IoHw2 -> "Hw2" | IoTry -> "Try"
+  | IoHw1 -> "Hw1" | IoHw2 -> "Hw2" | IoHw2b -> "Hw2b" | IoTry -> "Try"
   | IoFlush -> "Flush" | IoSubL k -> "SubL." ^ zi k
   | IoRelX -> "RelX" | IoHwExn -> "HwExn" | IoNotify -> "Notify" | IoRelL -> "RelL"
   | IoHw3 -> "Hw3" | IoHw4 -> "Hw4" | IoHw5 -> "Hw5" | IoHw6 -> "Hw6" | IoHw7 -> "Hw7"
@@ -89,9 +90,10 @@ let parse_progs (t : string) : (z list * bool) list =
       ((if sizes = "-" then [] else List.map (fun x -> z_of_int (int_of_string x)) (String.split_on_char '.' sizes)), c = "1")
     | _ -> failwith "bad prog") (String.split_on_char '/' t)
 
-let parse_params hw sb look res progs : params =
+let parse_params hw sb look res fix progs : params =
   { hw = z_of_int (int_of_string hw); sb = z_of_int (int_of_string sb); look = nat_of_int (int_of_string look);
-    progs = parse_progs progs; residue_ok = (res = "1") }
+    progs = parse_progs progs; residue_ok = (res = "1");
+    fx_notify_le = (fix.[0] = '1'); fx_drain = (fix.[1] = '1'); fx_recheck = (fix.[2] = '1') }
 
 let sendres_of (a : string) : sendres =
   if a = "" || a = "b" || a = "-" then SRBlock
@@ -252,10 +254,10 @@ let do_explore p maxstates maxarr =
 
 let () = main_loop (fun ws ->
   match ws with
-  | ["run"; hw; sb; look; res; progs; toks] ->
-    do_run (parse_params hw sb look res progs) (String.split_on_char ',' toks)
-  | ["follow"; gran; hw; sb; look; res; progs; evs] ->
-    do_follow gran (parse_params hw sb look res progs) (String.split_on_char ',' evs)
-  | ["explore"; hw; sb; look; res; progs; maxstates; maxarr] ->
-    do_explore (parse_params hw sb look res progs) (int_of_string maxstates) (int_of_string maxarr)
+  | ["run"; hw; sb; look; res; fix; progs; toks] ->
+    do_run (parse_params hw sb look res fix progs) (String.split_on_char ',' toks)
+  | ["follow"; gran; hw; sb; look; res; fix; progs; evs] ->
+    do_follow gran (parse_params hw sb look res fix progs) (String.split_on_char ',' evs)
+  | ["explore"; hw; sb; look; res; fix; progs; maxstates; maxarr] ->
+    do_explore (parse_params hw sb look res fix progs) (int_of_string maxstates) (int_of_string maxarr)
   | _ -> "ERR bad query")
